@@ -81,14 +81,14 @@ PROPS = {
                      'translate_expr_to_mergefn / MergeFn::resolve not covered'],
     ),
     'C13': dict(
-        units=['merge'],
+        units=['merge', 'insert'],
         kani_quick=[],
         kani_thorough=['combine_subsumed_algebra', 'schema_math_layout', 'write_table_row_vec'],
         design_ref='DESIGN.md section 4 (U-MERGE, U-MIN, U-ACT) and section 5 C13',
         level_text='Unbounded proof (Verus) on the real code that the subsume flag is combined by max on every collision in either order '
                    '(combine_subsumed with the real SUBSUMED/NOT_SUBSUMED constants: a subsumed row stays subsumed, two live rows stay live), '
                    'that a flag flip forces the row to be rewritten (changed), that the rewritten row carries the max flag in the subsume column, and '
-                   'that the subsume column is distinct from key/value/timestamp columns (SchemaMath layout). Query/extraction filters, the '
+                   'that the subsume column is distinct from key/value/timestamp columns (SchemaMath layout); (unit insert) the table-side evaluation of a constraint list (SortedWritesTable::eval/get_if/eval_constraints), through which the `subsume column == NOT_SUBSUMED` filter of a query is applied, hands out a row iff it is live and satisfies every constraint, and serial_insert/StagedOutputs::insert store exactly the merged row (so the max flag computed by the callback is what the table holds). That queries actually pass that constraint, extraction filters, the '
                    ':subsume desugaring and rebuild propagation are NOT covered.',
         level_note='Trusted: as for C05 (merge unit). Not covered: query_table NOT_SUBSUMED constraint, rebuild_row propagation, extraction skipping subsumed rows, '
                    'TableAction::subsume (impl Iterator argument, SmallVec collect: outside the Verus subset), deletion.',
@@ -123,7 +123,7 @@ PROPS = {
                    'EXACTLY the rows satisfying the constraint, timestamp range search returns exactly the rows with that timestamp. Built on the verified '
                    'UnionFind (same generated file, callers checked against its contracts). For SortedWritesTable (unit swt): binary_search_sort_val returns exactly the row range of the run '
                    'with the given sort value (or the partition point), and fast_subset on the sort column returns EXACTLY the rows whose sort value (timestamp) satisfies the constraint, '
-                   'over the offsets abstraction (runs of strictly increasing sort values and row ids). (unit index) SubsetTracker::recent_updates hands out only the rows added since the version seen last within a major generation and everything otherwise, and records the version; Index::refresh is a no-op iff the versions agree, a full rebuild iff the major generation changed, the delta otherwise, and ends at the table\'s version. (unit insert) over the keyed-map view KM (row store, hash index, number of keys) of the real SortedWritesTable: serial_insert and StagedOutputs::insert keep the invariant (one live row per key, hash entries = live rows, stored hash = hash of the key) and realise exactly the map update of each pending row; Rows::{add_row,set_stale,get_row,clear,next_row} keep stale_rows = number of stale rows; get_row / get_row_column return exactly the live row with the key or None when no live row has it; len() = rows - stale rows; merge() = removals, then every staged row through the merge function, then compaction, and row ids stay valid (rows only appended or marked stale) unless the major generation changed; maybe_rehash compacts exactly when stale > max(16, n/2) and then bumps the major generation; clear() empties rows and index and bumps the major generation of a non-empty table; version() = (generation, rows appended). The hash shards, RowBuffer, serial/parallel delete, parallel insert, rehash_impl (compaction itself), value-level rebuild and the index contents are assumed contracts, NOT covered.',
+                   'over the offsets abstraction (runs of strictly increasing sort values and row ids). (unit index) SubsetTracker::recent_updates hands out only the rows added since the version seen last within a major generation and everything otherwise, and records the version; Index::refresh is a no-op iff the versions agree, a full rebuild iff the major generation changed, the delta otherwise, and ends at the table\'s version. (unit insert) over the keyed-map view KM (row store, hash index, number of keys) of the real SortedWritesTable: serial_insert and StagedOutputs::insert keep the invariant (one live row per key, hash entries = live rows, stored hash = hash of the key) and realise exactly the map update of each pending row; Rows::{add_row,set_stale,get_row,clear,next_row} keep stale_rows = number of stale rows; get_row / get_row_column return exactly the live row with the key or None when no live row has it; len() = rows - stale rows; merge() = removals, then every staged row through the merge function, then compaction, and row ids stay valid (rows only appended or marked stale) unless the major generation changed; maybe_rehash compacts exactly when stale > max(16, n/2) and then bumps the major generation; clear() empties rows and index and bumps the major generation of a non-empty table; version() = (generation, rows appended); eval / get_if / eval_constraints hand out a row iff it is live and satisfies EVERY constraint (Eq, EqConst, Lt/Gt/Le/GeConst, written from the enum's documentation). The hash shards, RowBuffer, serial/parallel delete, parallel insert, rehash_impl (compaction itself), value-level rebuild and the index contents are assumed contracts, NOT covered.',
         level_note='Trusted: HashMap as a finite map (A-hash), [T]::binary_search_by_key specification for a total key closure (A-std), NumericId axioms, '
                    'OffsetRange::new debug_assert taken as precondition; merge()/get_row() (SegQueue, pool closures) not covered. '
                    'Trait impl `impl Table for DisplacedTable` emitted as inherent impl (R-INHERENT).',
